@@ -178,3 +178,7 @@ pub use span::Span;
 /// Module that provides a WithPositions type
 mod with_positions;
 pub use with_positions::{MatchExtIterator, WithPositions};
+
+/// Read-only observation hooks for external runtime monitors (feature `verif_hooks`).
+#[cfg(feature = "verif_hooks")]
+pub mod verif_hooks;
